@@ -87,6 +87,23 @@ func preludeFor(bv bool) string {
 	return sb.String()
 }
 
+// allocatesArrays: fn has a local array variable or makes a slice.
+func allocatesArrays(fn *ssa.Function) bool {
+	for _, b := range fn.Blocks {
+		for _, ins := range b.Instrs {
+			switch v := ins.(type) {
+			case *ssa.MakeSlice:
+				return true
+			case *ssa.Alloc:
+				if _, ok := v.Type().Underlying().(*types.Pointer).Elem().Underlying().(*types.Array); ok {
+					return true
+				}
+			}
+		}
+	}
+	return false
+}
+
 // verifyFunction generates all obligations of one function under contract.
 func verifyFunction(w *World, fn *ssa.Function, spec *FuncSpec) (vc *VC) {
 	vc = newVC(w, fn, spec)
@@ -130,6 +147,16 @@ func verifyFunction(w *World, fn *ssa.Function, spec *FuncSpec) (vc *VC) {
 			vc.assume(fmt.Sprintf("(< (sl_ref %s) %s)", n, compInit("$alloc")))
 		case *types.Chan, *types.Map:
 			vc.assume(fmt.Sprintf("(< %s %s)", n, compInit("$alloc")))
+		case *types.Struct:
+			// every reference held in a struct passed by value was allocated before entry
+			// (stated only where it can matter: the function creates arrays of its own that the
+			// parameter's slices have to be told apart from)
+			if !allocatesArrays(fn) {
+				break
+			}
+			for _, f := range vc.refsBelow(p.Type(), n, compInit("$alloc"), 0) {
+				vc.assume(f)
+			}
 		}
 		if vc.isPooledPtr(p.Type()) {
 			// pooled parameters are owned on entry (obligation at every call site)
@@ -192,6 +219,19 @@ func verifyFunction(w *World, fn *ssa.Function, spec *FuncSpec) (vc *VC) {
 		vc.steps = vc.steps[:n+1]
 	}
 	fr.run(st, "true")
+	// an `at` clause that applies to no program point checks nothing: fail closed (a renamed callee, a
+	// wrong ordinal, a pattern that never matched would otherwise silently drop the clause)
+	for _, at := range spec.Ats {
+		if !vc.atMatched[at] {
+			txt := ""
+			if at.Clause != nil {
+				txt = at.Clause.Text
+			} else if at.Ghost != nil {
+				txt = "ghost " + at.Ghost.Text
+			}
+			vc.unsupportedf("at-clause `%s#%d: %s` matches no program point of %s", at.Callee, at.Ord, truncate(txt, 80), vc.name)
+		}
+	}
 	// exits
 	nret := 0
 	for _, ex := range fr.exits {
